@@ -382,4 +382,85 @@ example : MGFixHyp exampleSetup (fun _ => []) where
   prol := by intro lv _ j _ _ k _ hk; simp at hk
   solve0 := by intro lv _ m; simp [exampleSetup]
 
+section fromTop
+variable {K : Type} [Field K] [LinearOrder K] [IsStrictOrderedRing K]
+
+/-- `local_mg_step_energy` with the matrix hypotheses on the **finest level only**: symmetry and
+positive semidefiniteness of `A` propagate to all Galerkin matrices (`galerkin_sym`,
+`galerkin_psd`); what remains per level is the positive diagonal on the smoothing sets, the
+absence of repeated indices and the solver contract. -/
+theorem local_mg_step_energy_from_top (S : MGSetup K)
+    (symTop : ∀ i < S.size S.top, ∀ j < S.size S.top, S.A S.top i j = S.A S.top j i)
+    (psdTop : ∀ v : ℕ → K, 0 ≤ ∑ i ∈ range (S.size S.top), ∑ j ∈ range (S.size S.top), v i * S.A S.top i j * v j)
+    (gal : ∀ lv < S.top, ∀ i < S.size lv, ∀ j < S.size lv,
+      S.A lv i j = galerkinEntry (S.size (lv + 1)) (S.A (lv + 1)) (S.P lv) i j)
+    (ind : ∀ lv ≤ S.top, ∀ i ∈ S.ind lv, i < S.size lv ∧ 0 < S.A lv i i)
+    (nodup : ∀ lv ≤ S.top, (S.ind lv).Nodup)
+    (solve : ∀ lv ≤ S.top, ∀ rhs : List K, rhs.length = (S.ind lv).length →
+      ∀ k < (S.ind lv).length,
+        ∑ m ∈ range (S.ind lv).length,
+          S.A lv ((S.ind lv).getD k 0) ((S.ind lv).getD m 0) * (S.subSolve lv rhs).getD m 0 = rhs.getD k 0)
+    (h1 : 1 ≤ S.top) (x f : LVec K) :
+    lvE S S.top (localMgStep S x f) f ≤ lvE S S.top x f :=
+  local_mg_step_energy_top S (MGHyp.of_top S symTop psdTop gal ind nodup solve) h1 x f
+
+end fromTop
+
+/-- non-vacuity of `MGHyp`: the two-level example with exact 1×1 / 2×2 subspace solvers. -/
+def exampleSetup2 : MGSetup ℚ :=
+  { exampleSetup with
+    subSolve := fun lv rhs => if lv = 0 then rhs.map (· / 6)
+      else [(2 * rhs.getD 0 0 - rhs.getD 1 0) / 3, (2 * rhs.getD 1 0 - rhs.getD 0 0) / 3] }
+
+example : MGHyp exampleSetup2 := by
+  refine MGHyp.of_top exampleSetup2 ?_ ?_ ?_ ?_ ?_ ?_
+  · intro i _ j _
+    simp only [exampleSetup2, exampleSetup]
+    by_cases h : i = j <;> simp [h, eq_comm]
+  · intro v
+    have e : exampleSetup2.size exampleSetup2.top = 0 + 1 + 1 := by decide
+    rw [e]
+    simp only [Finset.sum_range_succ, Finset.sum_range_zero]
+    simp [exampleSetup2, exampleSetup]
+    nlinarith [sq_nonneg (v 0 + v 1), sq_nonneg (v 0), sq_nonneg (v 1)]
+  · intro lv hlv i hi j hj
+    have h0 : lv = 0 := by simp [exampleSetup2, exampleSetup] at hlv; omega
+    subst h0
+    have hi0 : i = 0 := by simp [exampleSetup2, exampleSetup] at hi; omega
+    have hj0 : j = 0 := by simp [exampleSetup2, exampleSetup] at hj; omega
+    subst hi0; subst hj0
+    decide +kernel
+  · intro lv hlv i hi
+    have : lv = 0 ∨ lv = 1 := by simp [exampleSetup2, exampleSetup] at hlv; omega
+    rcases this with rfl | rfl <;> simp [exampleSetup2, exampleSetup] at hi ⊢
+    · omega
+    · rcases hi with rfl | rfl <;> simp
+  · intro lv hlv
+    have : lv = 0 ∨ lv = 1 := by simp [exampleSetup2, exampleSetup] at hlv; omega
+    rcases this with rfl | rfl <;> simp [exampleSetup2, exampleSetup]
+  · intro lv hlv rhs hlen k hk
+    have : lv = 0 ∨ lv = 1 := by simp [exampleSetup2, exampleSetup] at hlv; omega
+    rcases this with rfl | rfl
+    · have hk0 : k = 0 := by
+        have : k < 1 := by simpa [exampleSetup2, exampleSetup] using hk
+        omega
+      have hl : rhs.length = 1 := by simpa [exampleSetup2, exampleSetup] using hlen
+      subst hk0
+      match rhs, hl with
+      | [a], _ =>
+        have e : (exampleSetup2.ind 0).length = 0 + 1 := by decide
+        rw [e]
+        simp only [Finset.sum_range_succ, Finset.sum_range_zero]
+        simp [exampleSetup2, exampleSetup]
+        ring
+    · have hk2 : k < 2 := by simpa [exampleSetup2, exampleSetup] using hk
+      have hl : rhs.length = 2 := by simpa [exampleSetup2, exampleSetup] using hlen
+      match rhs, hl with
+      | [a, b], _ =>
+        have e : (exampleSetup2.ind 1).length = 0 + 1 + 1 := by decide
+        rw [e]
+        simp only [Finset.sum_range_succ, Finset.sum_range_zero]
+        have : k = 0 ∨ k = 1 := by omega
+        rcases this with rfl | rfl <;> simp [exampleSetup2, exampleSetup] <;> ring
+
 end Pyiga.Props.C11
